@@ -99,6 +99,11 @@ Structured families (generated from a grammar, not from all strings <= L)
   HISTORY_OPTION_POINTS  extra_letters {None,'.','-','_-.'} x tag x dialect
   FAMILY_OPTION_POINTS  the 12 option points {default, tag, perl, grep,
                     el='-', el='_-.'} x variableLengthFrags off/on
+Round 3 (documented where defined, at the end of this file)
+  UCLASS_REPS uclass_sets()  META_ROLE_STRINGS meta_role_sets()
+  EXTRA_AXES (full_escape) META_OPTION_POINTS  DICT_FORMS as_mapping()
+  count_vectors() with_counts() zero_count_dicts()
+  REAL_SEEDS REAL_PRESTATES REAL_OPTION_POINTS
 """
 import itertools
 from collections import OrderedDict
@@ -674,7 +679,9 @@ FAMILY_OPTION_POINTS = _family_points()
 #                     the digits / a prefix / a suffix around them
 #   EXTRA_AXES        full_escape [False, True]: an extract() option outside
 #                     the 240-point lattice, enumerated only where named
-#   META_OPTION_POINTS  the 12 FAMILY_OPTION_POINTS x full_escape off/on
+#   META_OPTION_POINTS  {default, tag, perl, grep, el='-', el='_-.'} with
+#                     variableLengthFrags off, {default, el='_-.'} with it
+#                     on: 8 points x full_escape off/on
 #   DICT_FORMS        ('dict', 'counter', 'odict') mapping forms of a
 #                     frequency dictionary
 #   count_vectors(n, full)  count vectors over {1,2,3}: all 3^n when `full`,
@@ -686,7 +693,8 @@ FAMILY_OPTION_POINTS = _family_points()
 #                     was supplied zero times and is not an example
 #   REAL_SEEDS / REAL_PRESTATES   the layer run on the REAL random module:
 #                     seeds {0, 1, None}, global generator pre-states
-#                     random.Random(k).getstate() for k in REAL_PRESTATES
+#                     random.Random(k).getstate() for k in REAL_PRESTATES,
+#                     REAL_OPTION_POINTS {default, extra_letters '_-.'}
 
 UCLASS_REPS = [(chr(cp), label) for (cp, label) in [
     (0x01C5, 'Lt'), (0x02B0, 'Lm'), (0x05D0, 'Lo'), (0x4E00, 'Lo-numeric'),
@@ -776,8 +784,12 @@ _SHORT['full_escape'] = 'fullesc'
 
 
 def _meta_points():
+    # variableLengthFrags on: only with the default and the 3-extra-letter
+    # point (dialect and tag do not interact with it in the literal route)
     return [dict(o, full_escape=fe) for fe in (False, True)
-            for o in FAMILY_OPTION_POINTS]
+            for o in FAMILY_OPTION_POINTS
+            if not o['variableLengthFrags']
+            or n_deviations(o) == 1 or o['extra_letters'] == '_-.']
 
 
 META_OPTION_POINTS = _meta_points()
@@ -832,3 +844,4 @@ def zero_count_dicts(pool1, pool2):
 
 REAL_SEEDS = [0, 1, None]
 REAL_PRESTATES = [11, 12]
+REAL_OPTION_POINTS = [{}, {'extra_letters': '_-.'}]
